@@ -314,8 +314,14 @@ class workq:
             self._waiters.append((channels, ev))
             try:
                 j = ev.get()
-            finally:
+            except BaseException:
+                # killed while blocked (client went away): a job that was already
+                # handed to this waiter must not be lost with it
                 self._waiters.remove((channels, ev))
+                if ev.ready():
+                    self.pushjob(ev.value)
+                raise
+            self._waiters.remove((channels, ev))
 
         return j
 
